@@ -2,7 +2,7 @@
 import copy
 from typing import List, Tuple, Union
 from functools import reduce
-from operator import add
+from operator import add, mul
 
 import numpy as np
 from scipy import sparse
@@ -686,7 +686,7 @@ def _left_permutation_matrix(position: int, size_list: List[int]) -> np.ndarray:
     if position < 2:
         I_head = np.eye(1)
     else:
-        size = reduce(add, size_list[: position - 1])
+        size = reduce(mul, size_list[: position - 1])
         I_head = np.eye(size)
 
     # create matrix K
@@ -694,7 +694,7 @@ def _left_permutation_matrix(position: int, size_list: List[int]) -> np.ndarray:
 
     # identity matrix for tail of permutation matrix
     if position < len(size_list) - 1:
-        size = reduce(add, size_list[position + 1 :])
+        size = reduce(mul, size_list[position + 1 :])
         I_tail = np.eye(size)
     else:
         I_tail = np.eye(1)
